@@ -44,7 +44,9 @@ def _worker(args):
     if hook:
       import importlib
       mod, fn = hook.rsplit(".", 1)
-      getattr(importlib.import_module(mod), fn)(h, cfg)
+      is_corpus = isinstance(seed, str) and seed.startswith("corpus:")
+      # corpus entries are few: give them more of whatever the hook samples (C06: evaluation orders per bundle)
+      getattr(importlib.import_module(mod), fn)(h, dict(cfg, k=8, corpus_entry=True) if is_corpus else cfg)
     try:
       if isinstance(seed, str) and seed.startswith("corpus:"):
         with open(os.path.join(CORPUS, pid, seed[7:] + ".json")) as f:
@@ -148,7 +150,8 @@ def report(ck, merged, prop, tie_kinds, lean_ok=True):
     ck.nontrivial.add(k)
   for s in merged["samples"][:3]:
     ck.sample(s)
-  ck.cov["counters"].update({"histories": merged["histories"], "bundles_tied_to_model": merged["tie_bundles"]})
+  ck.cov["counters"].update({"histories": merged["histories"], "bundles_tied_to_model": merged["tie_bundles"],
+                             "corpus_histories": merged["stats"].get("corpus_histories", 0)})
   ck.extra["action_kind_distribution"] = merged["kinds"]
   ck.extra["rejected_bundle_error_kinds"] = merged["errors"]
   ck.extra["step_kinds"] = merged["step_kinds"]
